@@ -87,7 +87,9 @@ def raw_cases(rng, n):
     out, refused = [], 0
     for _ in range(n):
         p, cols, ordered = sp.gen_sqlprog(rng, rng.choice([1, 2, 3, 4, 5]))
-        if rng.random() < 0.4:
+        if rng.random() < 0.15:
+            p, ordered = sp.dedup_then_project(rng), False
+        elif rng.random() < 0.4:
             # windows the generator reaches rarely, below a binary operation: empty [0:0] / [k:k], one row, offset only
             win = rng.choice([(0, 0), (0, 0), (1, 1), (0, 1), (2, None)])
             counter = [50]
